@@ -279,3 +279,6 @@ def run(tier, seed):
     shards = 32 if thorough else 16
     common.parallel(shard_random, [(seed, i, n) for i in range(shards)], stats=stats)
     return stats
+
+
+STRATEGIES = {'merge': lambda skey: merge_cases(), 'shatter': lambda skey: shatter_cases()}
